@@ -395,7 +395,7 @@ func resultPhiModel(fn *ssa.Function, acc []acceptRet, kind AcceptKind, byStmt m
 					add(s, e)
 				}
 			case AcceptNilErr:
-				if !mayBeNilErr(v, pred, 0) {
+				if !mayBeNilErr(v, pred, 0) || edgeKnowsNonNil(v, pred, blk) {
 					dead[e] = true
 					continue
 				}
